@@ -130,7 +130,7 @@ Section History.
       + exists (o_upper W t). split; auto. unfold str_of_key. rewrite E.
         pose proof (k_prep_epsg W K t srs E S). subst. unfold fresh_str. rewrite E. reflexivity.
       + exists t. split; auto. unfold str_of_key. rewrite (epsg_upper_false _ E), S. reflexivity.
-    - destruct (k_etext W K n) as (A & B & C). exists (o_epsg_text W n). split; auto.
+    - destruct (k_etext W K n srs S) as (A & B & C). exists (o_epsg_text W n). split; auto.
       unfold str_of_key. rewrite A.
       assert (E : o_is_epsg W (o_upper W (o_epsg_text W n)) = true) by (rewrite B; auto).
       pose proof (k_prep_epsg W K _ _ E S). subst. unfold fresh_str. rewrite E, B. reflexivity.
@@ -289,7 +289,7 @@ Section History.
         - inversion S; subst. eapply Vh. eapply Hobj; eauto. }
       assert (Oe : entry_ok (norm_entry W (sp_id sp nid) srs e0)).
       { apply norm_entry_ok; auto. destruct He0 as [-> | ->]; auto. right. simpl in S.
-        destruct (k_etext W K e0) as (A & B & C).
+        destruct (k_etext W K e0 srs S) as (A & B & C).
         assert (E : o_is_epsg W (o_upper W (o_epsg_text W e0)) = true) by (rewrite B; auto).
         pose proof (k_prep_epsg W K _ _ E S). subst. exact E. }
       destruct (norm_entry_id W (sp_id sp nid) srs e0) as (Ei & Es).
